@@ -178,7 +178,8 @@ def check_lints(check, funcs, rule_prefix: str = ''):
       for why in onepass_problems(ff, p):
         check.ob('R-ONEPASS', fi, f'iterable parameter {p}', False,
                  f'{why}: a one-shot iterable (generator, map, filter, islice) is exhausted by the first use, so later uses see nothing')
-    for c, how in bad_copies(ff):
+    # dtype-preserving copies matter where client state of mixed dtype is copied (C02); a sum of trees (tree_sum) may start from x + 0
+    for c, how in (bad_copies(ff) if getattr(check, 'prop', getattr(check, 'property_id', '')) in ('C02',) else []):
       check.ob('R-COPY', fi, txt(c)[:80], False,
                f'`{how}` is not a copy: it promotes bool leaves to integers (and weak types), so the copied state no longer has the dtype of '
                'the original', node=c)
